@@ -1,4 +1,114 @@
-import DisjointImpls.Tree
+/-
+  C08 — naming and top-level shape of the expansion. Two parts:
+
+  1. Helper-trait names (`helper_trait.rs:140-142`, `format_ident!("_{}{}", ident, idx)`, model `genIdent` in
+     `Lemmas/Names.lean`): pairwise distinct within an invocation and different from the trait's own name.
+  2. The assembly step of `lib.rs:693-702` only: the trait is emitted verbatim, everything else goes into one
+     anonymous constant. These statements are definitional facts about the model `expandTop` of that step;
+     what is *inside* the anonymous constant (hygiene of the generated items) is not covered here.
+-/
+import DisjointImpls.Lemmas.Names
+import DisjointImpls.Validate
 namespace DI
-theorem C08_placeholder : (1 : Nat) = 1 := rfl
+
+/-! ## Helper-trait names -/
+
+theorem C08_helpers_distinct (name : String) (i j : Nat) : genIdent name i = genIdent name j → i = j :=
+  genIdent_inj name
+
+theorem C08_helper_differs_from_trait (name : String) (i : Nat) : genIdent name i ≠ name := genIdent_ne name i
+
+/-- helpers of one invocation: pairwise distinct names -/
+theorem C08_helper_names_nodup (name : String) (n : Nat) : ((List.range n).map (genIdent name)).Nodup :=
+  List.Pairwise.map (genIdent name) (fun _ _ hab e => hab (genIdent_inj name e)) List.nodup_range
+
+/-- … none of which is the trait's name -/
+theorem C08_helper_names_avoid_trait (name : String) (n : Nat) : name ∉ (List.range n).map (genIdent name) := by
+  intro h
+  obtain ⟨i, _, hi⟩ := List.mem_map.1 h
+  exact genIdent_ne name i hi
+
+/-! ## Top-level shape (assembly step only) -/
+
+/-- what `disjoint_impls!` expands to: the trait definition (trait mode) and one `const _: () = { … };` -/
+structure TopLevel where
+  trait_ : Option T
+  anon : List T
+
+/-- `lib.rs:693-702`: `#trait_  const _: () = { #(#helper_traits)* #(#helper_impls)* #(#main_impls)* };` -/
+def expandTop (trait_ : Option T) (helpers helperImpls mainImpls : List T) : TopLevel :=
+  ⟨trait_, helpers ++ helperImpls ++ mainImpls⟩
+
+/-- an item of the enclosing scope -/
+inductive ScopeItem where
+  | named (t : T)                 -- an item with a name of its own: the trait definition
+  | anonymous (items : List T)    -- `const _: () = { items };`
+
+def scopeItems (tl : TopLevel) : List ScopeItem := tl.trait_.toList.map .named ++ [.anonymous tl.anon]
+
+/-- names bound in the enclosing scope by an item (`const _` binds none; its contents are not in scope outside) -/
+def ScopeItem.boundNames : ScopeItem → List String
+  | .named t => [traitIdent t]
+  | .anonymous _ => []
+
+/-- the only items added to the enclosing scope are the trait, verbatim, and one anonymous constant containing
+    everything else -/
+theorem C08_top_level_shape (trait_ : Option T) (helpers helperImpls mainImpls : List T) :
+    scopeItems (expandTop trait_ helpers helperImpls mainImpls) =
+      trait_.toList.map .named ++ [.anonymous (helpers ++ helperImpls ++ mainImpls)] := rfl
+
+/-- names bound in the enclosing scope: the trait's name only; none in inherent mode -/
+theorem C08_introduced_names (trait_ : Option T) (helpers helperImpls mainImpls : List T) :
+    (scopeItems (expandTop trait_ helpers helperImpls mainImpls)).flatMap ScopeItem.boundNames =
+      trait_.toList.map traitIdent := by
+  cases trait_ <;> simp [scopeItems, expandTop, ScopeItem.boundNames]
+
+theorem C08_inherent_introduces_nothing (helpers helperImpls mainImpls : List T) :
+    (scopeItems (expandTop none helpers helperImpls mainImpls)).flatMap ScopeItem.boundNames = [] := by
+  rw [C08_introduced_names]; rfl
+
+/-- one invocation: the trait (if any) and the three groups of generated items -/
+structure Invocation where
+  trait_ : Option T
+  helpers : List T
+  helperImpls : List T
+  mainImpls : List T
+
+def Invocation.scope (i : Invocation) : List ScopeItem := scopeItems (expandTop i.trait_ i.helpers i.helperImpls i.mainImpls)
+
+theorem flatMap_toList_eq_filterMap {α β : Type} (f : α → Option β) : ∀ (l : List α),
+    l.flatMap (fun a => (f a).toList) = l.filterMap f
+  | [] => rfl
+  | a :: l => by
+      rw [List.flatMap_cons, List.filterMap_cons, flatMap_toList_eq_filterMap f l]
+      cases f a <;> rfl
+
+/-- side by side: invocations with pairwise distinct trait names bind no name twice in the enclosing scope
+    (anonymous constants bind none, so any number of inherent-mode invocations may be added) -/
+theorem C08_side_by_side (invs : List Invocation)
+    (h : ((invs.filterMap (·.trait_)).map traitIdent).Nodup) :
+    ((invs.flatMap Invocation.scope).flatMap ScopeItem.boundNames).Nodup := by
+  have : (invs.flatMap Invocation.scope).flatMap ScopeItem.boundNames =
+      (invs.filterMap (·.trait_)).map traitIdent := by
+    rw [List.flatMap_assoc]
+    have h1 : ∀ i : Invocation, (Invocation.scope i).flatMap ScopeItem.boundNames = (i.trait_.toList).map traitIdent :=
+      fun i => C08_introduced_names i.trait_ i.helpers i.helperImpls i.mainImpls
+    simp only [h1]
+    rw [← flatMap_toList_eq_filterMap, List.map_flatMap]
+  rw [this]; exact h
+
+/-! ## Non-vacuity -/
+
+example : genIdent "Kita" 0 = "_Kita0" ∧ genIdent "Kita" 12 = "_Kita12" := by
+  with_unfolding_all decide
+
+example :
+    let tr (x : String) : T := .node "ItemTrait" [] [.node "L" [] [], .node "V" [] [], .node "None" [] [], .node "None" [] [],
+      .node "None" [] [], .node "Ident" [x] [], .node "G" [] [], .node "None" [] [], .node "List" [] [], .node "List" [] []]
+    let invs : List Invocation := [⟨some (tr "Kita"), [.node "H" [] []], [], []⟩, ⟨none, [], [], [.node "M" [] []]⟩,
+      ⟨some (tr "Other"), [], [], []⟩]
+    ((invs.filterMap (·.trait_)).map traitIdent) = ["Kita", "Other"] ∧
+    (invs.flatMap Invocation.scope).flatMap ScopeItem.boundNames = ["Kita", "Other"] ∧
+    (invs.flatMap Invocation.scope).length = 5 := by decide
+
 end DI
